@@ -14,10 +14,10 @@ all binary64) times, recordings of any length and any positive sample width.
 
 | clause | theorem(s) |
 |---|---|
-| keep list | `keep_spec_partial` (non-empty list), `keep_empty_counterexample`, `window_eq_getFrames`, `window_samples` |
+| keep list | `keep_spec` (the empty list included), `keep_empty_regression`, `window_eq_getFrames`, `window_samples` |
 | delete list | `invert_eq_complement`, `complement_spec`, `delete_spec`, `delete_eq_keep_complement` |
 | replacement | `replace_keep`, `replace_delete` (original length, kept samples at their original position) |
-| rejection | `both_lists_rejected`, `out_of_range_rejected_partial`, `negative_time_counterexample` |
+| rejection | `both_lists_rejected`, `out_of_range_rejected` (both bounds), `negative_time_regression` |
 | generators | `silence_length`, `silence_zero`, `sine_length` |
 | extractSubwav | `extract_spec` |
 | splitAudioOnTier | `split_length`, `split_names_nodup`, `split_frames`, `split_tg_span` |
@@ -497,59 +497,111 @@ theorem isEmpty_false {β} (l : List β) (h : l ≠ []) : l.isEmpty = false := b
   | nil => exact absurd rfl h
   | cons _ _ => rfl
 
-/-- **keep list**: the marked intervals are, in time order, the given intervals labelled `keep` and the gaps
-of `[start, stop]` labelled `delete`; touching intervals produce no empty piece -/
-theorem marked_keep (a b : Int) (K : List (Int × Int)) (h : InChain a K b) (hne : K ≠ []) :
-    computeKeepDelete a b K [] = .ok (tiling true a K b) := by
-  unfold computeKeepDelete
-  simp only [isEmpty_false K hne, List.isEmpty_nil, Bool.not_false, Bool.not_true, Bool.and_false, Bool.false_and,
-    Bool.false_eq_true, if_false]
-  rw [invert_eq_complement a K b h hne]
-  simp only
-  rw [sortMarked_keep a K b h]
+/-- **keep list** (possibly empty — then nothing is kept): the marked intervals are, in time order, the given
+intervals labelled `keep` and the gaps of `[start, stop]` labelled `delete`; touching intervals produce no empty piece -/
+theorem marked_keep (a b : Int) (K : List (Int × Int)) (h : InChain a K b) (hne : K ≠ [] ∨ a < b) :
+    computeKeepDelete a b (some K) [] = .ok (tiling true a K b) := by
+  by_cases hK : K = []
+  · subst hK
+    have hab : a < b := by
+      rcases hne with h | h
+      · exact absurd rfl h
+      · exact h
+    unfold computeKeepDelete
+    simp only [Option.getD_some, List.isEmpty_nil, Bool.not_true, Bool.false_and, Option.isNone_some,
+      Bool.false_eq_true, if_false]
+    rw [C15.invert_empty]
+    simp only
+    unfold sortMarked tiling
+    rw [if_pos hab]
+    simp [markDelete]
+  · unfold computeKeepDelete
+    simp only [Option.getD_some, isEmpty_false K hK, List.isEmpty_nil, Bool.not_false, Bool.not_true, Bool.and_false,
+      Bool.false_and, Option.isNone_some, Bool.false_eq_true, if_false]
+    rw [invert_eq_complement a K b h hK]
+    simp only
+    rw [sortMarked_keep a K b h]
 
-/-- **delete list**: the given intervals labelled `delete`, the gaps labelled `keep` -/
-theorem marked_delete (a b : Int) (D : List (Int × Int)) (h : InChain a D b) (hne : D ≠ []) :
-    computeKeepDelete a b [] D = .ok (tiling false a D b) := by
+/-- the degenerate case: an empty keep list on an empty span -/
+theorem marked_keep_degenerate (a : Int) : computeKeepDelete a a (some []) [] = .ok [⟨a, a, false⟩] := by
   unfold computeKeepDelete
-  simp only [isEmpty_false D hne, List.isEmpty_nil, Bool.not_false, Bool.not_true, Bool.and_false,
+  simp only [Option.getD_some, List.isEmpty_nil, Bool.not_true, Bool.false_and, Option.isNone_some,
+    Bool.false_eq_true, if_false]
+  rw [C15.invert_empty]
+  simp only
+  unfold sortMarked
+  simp [markDelete]
+
+/-- **delete list** (no keep list, or an empty one): the given intervals labelled `delete`, the gaps labelled `keep` -/
+theorem marked_delete (a b : Int) (keep : Option (List (Int × Int))) (hk : keep.getD [] = [])
+    (D : List (Int × Int)) (h : InChain a D b) (hne : D ≠ []) :
+    computeKeepDelete a b keep D = .ok (tiling false a D b) := by
+  unfold computeKeepDelete
+  simp only [hk, isEmpty_false D hne, List.isEmpty_nil, Bool.not_false, Bool.not_true, Bool.and_false,
     Bool.and_true, Bool.false_eq_true, if_false, if_true]
   rw [invert_eq_complement a D b h hne]
   simp only
   rw [sortMarked_delete a D b h]
 
-/-- no list (or two empty lists): everything is kept -/
-theorem marked_none (a b : Int) : computeKeepDelete a b [] [] = .ok [⟨a, b, true⟩] := by
+/-- no keep list and no (or an empty) delete list: everything is kept -/
+theorem marked_none (a b : Int) : computeKeepDelete a b none [] = .ok [⟨a, b, true⟩] := by
   unfold computeKeepDelete sortMarked
   simp [markKeep]
 
 /-- the partition statement of the design: for a well-formed keep (delete) list the result tiles `[start, stop]`
 in time order with pieces of positive length, the given intervals carry the list's label, the gaps the other one -/
 theorem keepdelete_partition (a b : Int) (L : List (Int × Int)) (h : SortedDisjoint L a b) (hne : L ≠ []) :
-    (∃ ms, computeKeepDelete a b L [] = .ok ms ∧ Tiles a ms b ∧
+    (∃ ms, computeKeepDelete a b (some L) [] = .ok ms ∧ Tiles a ms b ∧
         ms.filter (fun m => m.keep) = L.map markKeep ∧ ms.filter (fun m => !m.keep) = (complement a L b).map markDelete) ∧
-    (∃ ms, computeKeepDelete a b [] L = .ok ms ∧ Tiles a ms b ∧
+    (∃ ms, computeKeepDelete a b none L = .ok ms ∧ Tiles a ms b ∧
         ms.filter (fun m => !m.keep) = L.map markDelete ∧ ms.filter (fun m => m.keep) = (complement a L b).map markKeep) := by
   have hc := inChain_of_sortedDisjoint L a b h
   rw [markKeep_eq, markDelete_eq]
-  refine ⟨⟨_, marked_keep a b L hc hne, tiling_tiles true a L b hc, ?_, ?_⟩,
-    ⟨_, marked_delete a b L hc hne, tiling_tiles false a L b hc, ?_, ?_⟩⟩
+  refine ⟨⟨_, marked_keep a b L hc (Or.inl hne), tiling_tiles true a L b hc, ?_, ?_⟩,
+    ⟨_, marked_delete a b none rfl L hc hne, tiling_tiles false a L b hc, ?_, ?_⟩⟩
   · have := tiling_filter_inner true a L b; simpa using this
   · have := tiling_filter_outer true a L b; simpa using this
   · have := tiling_filter_inner false a L b; simpa using this
   · have := tiling_filter_outer false a L b; simpa using this
 
-theorem checkLast_tiles (a b : Int) (ms : List Marked) (h : Tiles a ms b) (hne : ms ≠ []) : checkLast b ms = .ok () := by
-  unfold checkLast
+theorem checkBounds_tiles (a b : Int) (ms : List Marked) (h : Tiles a ms b) (hne : ms ≠ []) (ha : 0 ≤ a) :
+    checkBounds b ms = .ok () := by
   obtain ⟨m, hm⟩ : ∃ m, ms.getLast? = some m := ⟨_, List.getLast?_eq_some_getLast hne⟩
-  rw [hm]
-  have := h.getLast m hm
-  simp only
-  rw [if_neg (by omega)]
-
-theorem tiling_ne_nil (inner : Bool) (a b : Int) (L : List (Int × Int)) (hne : L ≠ []) : tiling inner a L b ≠ [] := by
-  cases L with
+  have hme := h.getLast m hm
+  cases ms with
   | nil => exact absurd rfl hne
+  | cons x rest =>
+    obtain ⟨hx, _, _⟩ := h
+    unfold checkBounds
+    rw [hm]
+    simp only [List.head?_cons]
+    rw [if_neg (by omega)]
+
+/-- what makes `readFramesAtTimes` raise `ArgumentError` after the intervals are marked -/
+theorem checkBounds_err (dur : Int) (ms : List Marked)
+    (h : (∃ x, ms.head? = some x ∧ x.s < 0) ∨ (∃ m, ms.getLast? = some m ∧ dur < m.e)) :
+    checkBounds dur ms = .error (.praat .ArgumentError) := by
+  cases ms with
+  | nil => rcases h with ⟨x, hx, _⟩ | ⟨m, hm, _⟩ <;> simp at *
+  | cons y rest =>
+    obtain ⟨l, hl⟩ : ∃ l, (y :: rest).getLast? = some l := ⟨_, List.getLast?_eq_some_getLast (by simp)⟩
+    unfold checkBounds
+    rw [hl]
+    simp only [List.head?_cons]
+    rw [if_pos]
+    rcases h with ⟨x, hx, hx0⟩ | ⟨m, hm, hmd⟩
+    · simp only [List.head?_cons, Option.some.injEq] at hx
+      subst hx; exact Or.inl hx0
+    · rw [hl] at hm; cases hm; exact Or.inr hmd
+
+theorem tiling_ne_nil (inner : Bool) (a b : Int) (L : List (Int × Int)) (hne : L ≠ [] ∨ a < b) : tiling inner a L b ≠ [] := by
+  cases L with
+  | nil =>
+    have hab : a < b := by
+      rcases hne with h | h
+      · exact absurd rfl h
+      · exact h
+    unfold tiling; rw [if_pos hab]; simp
   | cons p rest => unfold tiling; split <;> simp
 
 /-! ## 7. keep list, delete list (no replacement) -/
@@ -562,42 +614,45 @@ instance (den : Nat) (f : WavFile) (dur : Int) : Decidable (DurOk den f dur) := 
 theorem idx_dur (den : Nat) (f : WavFile) (dur : Int) (h : DurOk den f dur) : idx den f.rate dur = f.nframes := by
   unfold idx; rw [h.2]; rfl
 
-/-- **keep_spec** (for a non-empty keep list; for the empty list see `keep_empty_counterexample`): the result is the
-concatenation, in order, of the windows of the kept intervals -/
-theorem keep_spec_partial (den : Nat) (hden : 0 < den) (f : WavFile) (dur : Int) (hdur : DurOk den f dur)
-    (K : List (Int × Int)) (hK : SortedDisjoint K 0 dur) (hne : K ≠ []) :
-    readFramesAtTimes den f dur K [] none = .ok (K.flatMap (window den f)) := by
+/-- **keep_spec**: for every sorted disjoint keep list inside `[0, duration]` — the empty list included: then
+nothing is kept — the result is the concatenation, in order, of the windows of the kept intervals -/
+theorem keep_spec (den : Nat) (hden : 0 < den) (f : WavFile) (dur : Int) (hdur : DurOk den f dur)
+    (K : List (Int × Int)) (hK : SortedDisjoint K 0 dur) :
+    readFramesAtTimes den f dur (some K) [] none = .ok (K.flatMap (window den f)) := by
   have hc := inChain_of_sortedDisjoint K 0 dur hK
-  unfold readFramesAtTimes
-  rw [marked_keep 0 dur K hc hne]
-  simp only
-  rw [checkLast_tiles 0 dur _ (tiling_tiles true 0 K dur hc) (tiling_ne_nil true 0 dur K hne)]
-  simp only
-  rw [assemble_none_filter]
-  have hf := tiling_filter_inner true 0 K dur
-  have hf' : (tiling true 0 K dur).filter (fun m => m.keep) = K.map (mk true) := by
-    rw [← hf]; congr 1; funext m; simp
-  rw [hf']
-  apply assemble_keeps den hden f none K
-  intro p hp
-  obtain ⟨h1, h2, h3⟩ := hK.2.1 p hp
-  refine ⟨h2, by omega, ?_⟩
-  rw [← idx_dur den f dur hdur]
-  exact idx_mono den f.rate hden _ _ h3
-
-/-- the model mirrors the code: an explicitly empty keep list is not "keep nothing" but "no list given" — the
-whole recording comes back (known finding C17-2) -/
-theorem keep_empty_counterexample :
-    readFramesAtTimes 8 ⟨1, 8, [1, 2, 3, 4]⟩ 4 [] [] none = .ok [1, 2, 3, 4] ∧
-    readFramesAtTimes 8 ⟨1, 8, [1, 2, 3, 4]⟩ 4 [] [] (some (generateSilence 8 8 1)) = .ok [1, 2, 3, 4] := by
-  constructor <;> (unfold readFramesAtTimes; rw [marked_none]; decide)
+  by_cases hne : K ≠ [] ∨ 0 < dur
+  · unfold readFramesAtTimes
+    rw [marked_keep 0 dur K hc hne]
+    simp only
+    rw [checkBounds_tiles 0 dur _ (tiling_tiles true 0 K dur hc) (tiling_ne_nil true 0 dur K hne) (Int.le_refl _)]
+    simp only
+    rw [assemble_none_filter]
+    have hf := tiling_filter_inner true 0 K dur
+    have hf' : (tiling true 0 K dur).filter (fun m => m.keep) = K.map (mk true) := by
+      rw [← hf]; congr 1; funext m; simp
+    rw [hf']
+    apply assemble_keeps den hden f none K
+    intro p hp
+    obtain ⟨h1, h2, h3⟩ := hK.2.1 p hp
+    refine ⟨h2, by omega, ?_⟩
+    rw [← idx_dur den f dur hdur]
+    exact idx_mono den f.rate hden _ _ h3
+  · have hK0 : K = [] := by
+      by_cases h : K = []
+      · exact h
+      · exact absurd (Or.inl h) hne
+    have hd0 : dur = 0 := by have := hdur.1; omega
+    subst hK0; subst hd0
+    unfold readFramesAtTimes
+    rw [marked_keep_degenerate]
+    rfl
 
 /-- **delete_spec**: for every sorted disjoint delete list inside `[0, duration]` — empty, touching, starting at 0,
 ending at the duration, covering everything — the result is the concatenation, in order, of the windows of the
 complement (`complement_spec`: exactly the gaps) -/
 theorem delete_spec (den : Nat) (hden : 0 < den) (f : WavFile) (dur : Int) (hdur : DurOk den f dur)
     (D : List (Int × Int)) (hD : SortedDisjoint D 0 dur) :
-    readFramesAtTimes den f dur [] D none = .ok ((complement 0 D dur).flatMap (window den f)) := by
+    readFramesAtTimes den f dur none D none = .ok ((complement 0 D dur).flatMap (window den f)) := by
   have hc := inChain_of_sortedDisjoint D 0 dur hD
   obtain ⟨hcomp, _⟩ := complement_spec 0 D dur hc
   have hkeeps : assemble den f none ((complement 0 D dur).map (mk true)) = .ok ((complement 0 D dur).flatMap (window den f)) := by
@@ -611,7 +666,7 @@ theorem delete_spec (den : Nat) (hden : 0 < den) (f : WavFile) (dur : Int) (hdur
   · subst hne
     unfold readFramesAtTimes
     rw [marked_none]
-    simp only [checkLast, List.getLast?_singleton]
+    simp only [checkBounds, List.head?_cons, List.getLast?_singleton]
     rw [if_neg (by omega)]
     simp only
     by_cases h0 : 0 < dur
@@ -631,9 +686,9 @@ theorem delete_spec (den : Nat) (hden : 0 < den) (f : WavFile) (dur : Int) (hdur
       rw [this]
       simp [window, idx_zero den f.rate hden]
   · unfold readFramesAtTimes
-    rw [marked_delete 0 dur D hc hne]
+    rw [marked_delete 0 dur none rfl D hc hne]
     simp only
-    rw [checkLast_tiles 0 dur _ (tiling_tiles false 0 D dur hc) (tiling_ne_nil false 0 dur D hne)]
+    rw [checkBounds_tiles 0 dur _ (tiling_tiles false 0 D dur hc) (tiling_ne_nil false 0 dur D (Or.inl hne)) (Int.le_refl _)]
     simp only
     rw [assemble_none_filter]
     have hf := tiling_filter_outer false 0 D dur
@@ -643,14 +698,13 @@ theorem delete_spec (den : Nat) (hden : 0 < den) (f : WavFile) (dur : Int) (hdur
     rw [hf']
     exact hkeeps
 
-/-- hence: **a delete list is the keep list of its complement** (when something is left to keep) -/
+/-- hence: **a delete list is the keep list of its complement** — also when nothing is left to keep -/
 theorem delete_eq_keep_complement (den : Nat) (hden : 0 < den) (f : WavFile) (dur : Int) (hdur : DurOk den f dur)
-    (D : List (Int × Int)) (hD : SortedDisjoint D 0 dur) (hne : complement 0 D dur ≠ []) :
-    readFramesAtTimes den f dur [] D none = readFramesAtTimes den f dur (complement 0 D dur) [] none := by
+    (D : List (Int × Int)) (hD : SortedDisjoint D 0 dur) :
+    readFramesAtTimes den f dur none D none = readFramesAtTimes den f dur (some (complement 0 D dur)) [] none := by
   have hc := inChain_of_sortedDisjoint D 0 dur hD
   rw [delete_spec den hden f dur hdur D hD,
-    keep_spec_partial den hden f dur hdur _ (complement_spec 0 D dur hc).1 hne]
-
+    keep_spec den hden f dur hdur _ (complement_spec 0 D dur hc).1]
 
 /-! ## 8. replacement: original length, every kept sample at its original position -/
 
@@ -744,41 +798,55 @@ theorem onGrid_zero (den rate : Nat) : OnGrid den rate 0 := ⟨0, by simp⟩
 
 /-- **replacement, keep list**: with a generator that returns `round(rate · d)` samples and all boundaries on sample
 positions, the result has the original length (`nframes` whole samples) and the bytes of every kept interval are
-the recording's bytes at the same offset — every kept sample is at its original position -/
+the recording's bytes at the same offset — every kept sample is at its original position.  For the empty keep list
+the whole recording is replaced. -/
 theorem replace_keep (den : Nat) (hden : 0 < den) (f : WavFile) (dur : Int) (hdur : DurOk den f dur)
     (gen : Int → List UInt8) (hgen : GenOk den f gen)
-    (K : List (Int × Int)) (hK : SortedDisjoint K 0 dur) (hne : K ≠ [])
+    (K : List (Int × Int)) (hK : SortedDisjoint K 0 dur)
     (hgrid : ∀ p ∈ K, OnGrid den f.rate p.1 ∧ OnGrid den f.rate p.2) (hgd : OnGrid den f.rate dur) :
-    ∃ out, readFramesAtTimes den f dur K [] (some gen) = .ok out ∧
+    ∃ out, readFramesAtTimes den f dur (some K) [] (some gen) = .ok out ∧
       out.length = f.nframes * f.width ∧
       ∀ p ∈ K, (out.drop (idx den f.rate p.1 * f.width)).take ((idx den f.rate p.2 - idx den f.rate p.1) * f.width) =
         (f.data.drop (idx den f.rate p.1 * f.width)).take ((idx den f.rate p.2 - idx den f.rate p.1) * f.width) := by
   have hc := inChain_of_sortedDisjoint K 0 dur hK
-  have hT := tiling_tiles true 0 K dur hc
-  obtain ⟨out, e1, len, pos⟩ := assemble_tiles den hden f gen hgen _ 0 dur hT (by omega)
-    (by rw [idx_dur den f dur hdur]; omega)
-    (tiling_forall (OnGrid den f.rate) true 0 K dur (onGrid_zero den f.rate) hgd hgrid)
-  refine ⟨out, ?_, ?_, ?_⟩
-  · unfold readFramesAtTimes
-    rw [marked_keep 0 dur K hc hne]
-    simp only
-    rw [checkLast_tiles 0 dur _ hT (tiling_ne_nil true 0 dur K hne)]
-    exact e1
-  · rw [len, idx_dur den f dur hdur, idx_zero den f.rate hden]; rfl
-  · intro p hp
-    have hmem : mk true p ∈ tiling true 0 K dur := by
-      have : mk true p ∈ (tiling true 0 K dur).filter (fun m => m.keep == true) := by
-        rw [tiling_filter_inner]; exact List.mem_map_of_mem hp
-      exact (List.mem_filter.1 this).1
-    have := pos (mk true p) hmem rfl
-    simpa [mk, idx_zero den f.rate hden, window] using this
+  by_cases hne : K ≠ [] ∨ 0 < dur
+  · have hT := tiling_tiles true 0 K dur hc
+    obtain ⟨out, e1, len, pos⟩ := assemble_tiles den hden f gen hgen _ 0 dur hT (by omega)
+      (by rw [idx_dur den f dur hdur]; omega)
+      (tiling_forall (OnGrid den f.rate) true 0 K dur (onGrid_zero den f.rate) hgd hgrid)
+    refine ⟨out, ?_, ?_, ?_⟩
+    · unfold readFramesAtTimes
+      rw [marked_keep 0 dur K hc hne]
+      simp only
+      rw [checkBounds_tiles 0 dur _ hT (tiling_ne_nil true 0 dur K hne) (Int.le_refl _)]
+      exact e1
+    · rw [len, idx_dur den f dur hdur, idx_zero den f.rate hden]; rfl
+    · intro p hp
+      have hmem : mk true p ∈ tiling true 0 K dur := by
+        have : mk true p ∈ (tiling true 0 K dur).filter (fun m => m.keep == true) := by
+          rw [tiling_filter_inner]; exact List.mem_map_of_mem hp
+        exact (List.mem_filter.1 this).1
+      have := pos (mk true p) hmem rfl
+      simpa [mk, idx_zero den f.rate hden, window] using this
+  · have hK0 : K = [] := by
+      by_cases h : K = []
+      · exact h
+      · exact absurd (Or.inl h) hne
+    have hd0 : dur = 0 := by have := hdur.1; omega
+    subst hK0; subst hd0
+    refine ⟨gen 0 ++ [], ?_, ?_, by intro p hp; cases hp⟩
+    · unfold readFramesAtTimes
+      rw [marked_keep_degenerate]
+      rfl
+    · have h0 : samplesIn den f.rate 0 = f.nframes := hdur.2
+      rw [List.append_nil, hgen 0, h0, Int.toNat_natCast]
 
-/-- **replacement, delete list**: the same for the kept complement of a delete list (empty, touching, at the edges) -/
+/-- **replacement, delete list**: the same for the kept complement of a delete list (touching, at the edges, covering everything) -/
 theorem replace_delete (den : Nat) (hden : 0 < den) (f : WavFile) (dur : Int) (hdur : DurOk den f dur)
     (gen : Int → List UInt8) (hgen : GenOk den f gen)
     (D : List (Int × Int)) (hD : SortedDisjoint D 0 dur) (hne : D ≠ [])
     (hgrid : ∀ p ∈ D, OnGrid den f.rate p.1 ∧ OnGrid den f.rate p.2) (hgd : OnGrid den f.rate dur) :
-    ∃ out, readFramesAtTimes den f dur [] D (some gen) = .ok out ∧
+    ∃ out, readFramesAtTimes den f dur none D (some gen) = .ok out ∧
       out.length = f.nframes * f.width ∧
       ∀ p ∈ complement 0 D dur,
         (out.drop (idx den f.rate p.1 * f.width)).take ((idx den f.rate p.2 - idx den f.rate p.1) * f.width) =
@@ -790,9 +858,9 @@ theorem replace_delete (den : Nat) (hden : 0 < den) (f : WavFile) (dur : Int) (h
     (tiling_forall (OnGrid den f.rate) false 0 D dur (onGrid_zero den f.rate) hgd hgrid)
   refine ⟨out, ?_, ?_, ?_⟩
   · unfold readFramesAtTimes
-    rw [marked_delete 0 dur D hc hne]
+    rw [marked_delete 0 dur none rfl D hc hne]
     simp only
-    rw [checkLast_tiles 0 dur _ hT (tiling_ne_nil false 0 dur D hne)]
+    rw [checkBounds_tiles 0 dur _ hT (tiling_ne_nil false 0 dur D (Or.inl hne)) (Int.le_refl _)]
     exact e1
   · rw [len, idx_dur den f dur hdur, idx_zero den f.rate hden]; rfl
   · intro p hp
@@ -803,13 +871,12 @@ theorem replace_delete (den : Nat) (hden : 0 < den) (f : WavFile) (dur : Int) (h
     have := pos (mk true p) hmem rfl
     simpa [mk, idx_zero den f.rate hden, window] using this
 
-
 /-! ## 9. the documented rejections -/
 
 /-- **both lists given: `ArgumentError`** (whatever the lists, the recording and the generator) -/
 theorem both_lists_rejected (den : Nat) (f : WavFile) (dur : Int) (K D : List (Int × Int))
     (gen : Option (Int → List UInt8)) (hK : K ≠ []) (hD : D ≠ []) :
-    readFramesAtTimes den f dur K D gen = .error (.praat .ArgumentError) := by
+    readFramesAtTimes den f dur (some K) D gen = .error (.praat .ArgumentError) := by
   unfold readFramesAtTimes computeKeepDelete
   simp [isEmpty_false K hK, isEmpty_false D hD]
 
@@ -865,11 +932,12 @@ theorem last_of_sorted (lab : Bool) (K G : List (Int × Int)) (g : Int × Int) (
       simp only [mk] at h
       omega
 
-/-- the marked list of a sorted disjoint list (either role) ends with the list's last interval -/
+/-- the marked list of a sorted disjoint list (either role) ends with the list's last interval when that one ends
+after `stop` -/
 theorem marked_last (a b : Int) (L : List (Int × Int)) (hne : L ≠ []) (hpos : ∀ p ∈ L, p.1 < p.2)
     (hpw : L.Pairwise (fun x y => x.2 ≤ y.1)) (g : Int × Int) (hg : L.getLast? = some g) (hgb : b < g.2) :
-    (∃ ms, computeKeepDelete a b L [] = .ok ms ∧ ms.getLast? = some (mk true g)) ∧
-    (∃ ms, computeKeepDelete a b [] L = .ok ms ∧ ms.getLast? = some (mk false g)) := by
+    (∃ ms, computeKeepDelete a b (some L) [] = .ok ms ∧ ms.getLast? = some (mk true g)) ∧
+    (∃ ms, computeKeepDelete a b none L = .ok ms ∧ ms.getLast? = some (mk false g)) := by
   obtain ⟨f, rest, rfl⟩ : ∃ f rest, L = f :: rest := by
     cases L with
     | nil => exact absurd rfl hne
@@ -914,15 +982,15 @@ theorem marked_last (a b : Int) (L : List (Int × Int)) (hne : L ≠ []) (hpos :
   refine ⟨⟨sortMarked (f :: rest) (C15.gaps2 ((if a < f.1 then [(a, a)] else []) ++ (f :: rest))), ?_, ?_⟩,
     ⟨sortMarked (C15.gaps2 ((if a < f.1 then [(a, a)] else []) ++ (f :: rest))) (f :: rest), ?_, ?_⟩⟩
   · unfold computeKeepDelete
-    simp only [isEmpty_false _ hK, List.isEmpty_nil, Bool.not_false, Bool.not_true, Bool.and_false, Bool.false_and,
-      Bool.false_eq_true, if_false]
+    simp only [Option.getD_some, isEmpty_false _ hK, List.isEmpty_nil, Bool.not_false, Bool.not_true, Bool.and_false,
+      Bool.false_and, Option.isNone_some, Bool.false_eq_true, if_false]
     rw [hcall]
   · unfold sortMarked
     rw [markKeep_eq, markDelete_eq]
     exact last_of_sorted true _ _ g _ (List.mergeSort_perm _ _)
       (List.pairwise_mergeSort (fun a b c => le_trans a b c) le_total _) hgm hglast hG
   · unfold computeKeepDelete
-    simp only [isEmpty_false _ hK, List.isEmpty_nil, Bool.not_false, Bool.not_true, Bool.and_false,
+    simp only [Option.getD_none, isEmpty_false _ hK, List.isEmpty_nil, Bool.not_false, Bool.not_true, Bool.and_false,
       Bool.and_true, Bool.false_eq_true, if_false, if_true]
     rw [hcall]
   · unfold sortMarked
@@ -930,61 +998,164 @@ theorem marked_last (a b : Int) (L : List (Int × Int)) (hne : L ≠ []) (hpos :
     exact last_of_sorted false _ _ g _ ((List.mergeSort_perm _ _).trans List.perm_append_comm)
       (List.pairwise_mergeSort (fun a b c => le_trans a b c) le_total _) hgm hglast hG
 
-/-- **a time beyond the duration: `ArgumentError`** — for every sorted disjoint keep or delete list one of whose
-intervals ends after the duration, with or without replacement.  (Partial: "times beyond the recording" also
-covers times before 0, which are *not* rejected — `negative_time_counterexample`.) -/
-theorem out_of_range_rejected_partial (den : Nat) (f : WavFile) (dur : Int) (gen : Option (Int → List UInt8))
+/-- in the sorted marked list the interval with the earliest start comes first -/
+theorem first_of_sorted (lab : Bool) (K G : List (Int × Int)) (f : Int × Int) (S : List Marked)
+    (hS : S.Perm (K.map (mk lab) ++ G.map (mk (!lab)))) (hsorted : S.Pairwise (fun x y => Marked.le x y = true))
+    (hf : f ∈ K) (hmin : ∀ q ∈ K, f.1 ≤ q.1 ∧ f.2 ≤ q.2) (hG : ∀ n ∈ G, f.1 < n.1) :
+    S.head? = some (mk lab f) := by
+  have hfS : mk lab f ∈ S := hS.mem_iff.2 (List.mem_append.2 (Or.inl (List.mem_map_of_mem hf)))
+  cases S with
+  | nil => cases hfS
+  | cons z rest =>
+    simp only [List.head?_cons]; congr 1
+    obtain ⟨hz, _⟩ := List.pairwise_cons.1 hsorted
+    rcases List.mem_cons.1 hfS with h | h
+    · exact h.symm
+    · have hle := hz _ h
+      rw [le_iff] at hle
+      have hzS : z ∈ K.map (mk lab) ++ G.map (mk (!lab)) := hS.mem_iff.1 (by simp)
+      rcases List.mem_append.1 hzS with hzK | hzG
+      · obtain ⟨q, hq, rfl⟩ := List.mem_map.1 hzK
+        obtain ⟨m1, m2⟩ := hmin q hq
+        simp only [mk] at hle
+        have h1 : q.1 = f.1 := by omega
+        have h2 : q.2 = f.2 := by omega
+        have : q = f := Prod.ext h1 h2
+        rw [this]
+      · obtain ⟨n, hn, rfl⟩ := List.mem_map.1 hzG
+        have := hG n hn
+        simp only [mk] at hle
+        omega
+
+/-- the marked list of a sorted disjoint list (either role) begins with the list's first interval when that one
+starts before `start` -/
+theorem marked_first (a b : Int) (L : List (Int × Int)) (hpos : ∀ p ∈ L, p.1 < p.2)
+    (hpw : L.Pairwise (fun x y => x.2 ≤ y.1)) (f : Int × Int) (hf : L.head? = some f) (hfa : f.1 < a) :
+    (∃ ms, computeKeepDelete a b (some L) [] = .ok ms ∧ ms.head? = some (mk true f)) ∧
+    (∃ ms, computeKeepDelete a b none L = .ok ms ∧ ms.head? = some (mk false f)) := by
+  obtain ⟨rest, rfl⟩ : ∃ rest, L = f :: rest := by
+    cases L with
+    | nil => simp at hf
+    | cons x rest => simp at hf; subst hf; exact ⟨rest, rfl⟩
+  have hpw' : ∀ p ∈ f :: rest, p.1 ≤ p.2 := fun p hp => Int.le_of_lt (hpos p hp)
+  obtain ⟨g, hg⟩ : ∃ g, (f :: rest).getLast? = some g := ⟨_, List.getLast?_eq_some_getLast (by simp)⟩
+  obtain ⟨hgm, hglast⟩ := C15.plast _ g hpw' hpw hg
+  have hfirst := C15.pfirst hpw' hpw
+  have hcall := invert_call a b f rest hpos hpw g hg
+  rw [if_neg (show ¬ a < f.1 by omega), List.nil_append] at hcall
+  have hpf := hpos f (by simp)
+  -- the gaps all start after the first interval's start
+  have hG : ∀ n ∈ C15.gaps2 ((f :: rest) ++ (if g.2 < b then [(b, b)] else [])), f.1 < n.1 := by
+    intro n hn
+    have hLp : ∀ x ∈ (f :: rest) ++ (if g.2 < b then [(b, b)] else []), x.1 ≤ x.2 := by
+      intro x hx
+      rcases List.mem_append.1 hx with hx | hx
+      · exact hpw' x hx
+      · split at hx
+        · simp at hx; subst hx; exact Int.le_refl _
+        · cases hx
+    have hLd : C15.Chain2 ((f :: rest) ++ (if g.2 < b then [(b, b)] else [])) := by
+      unfold C15.Chain2
+      rw [List.pairwise_append]
+      refine ⟨hpw, by split <;> simp, ?_⟩
+      intro x hx y hy
+      split at hy
+      · simp at hy; subst hy
+        have := (hglast x hx).2
+        show x.2 ≤ b
+        omega
+      · cases hy
+    obtain ⟨_, ⟨a', ha', ha'e⟩, _, _⟩ := (C15.gaps2_spec _ hLp hLd).1 n hn
+    rcases List.mem_append.1 ha' with ha' | ha'
+    · have := (hfirst a' ha').2
+      omega
+    · split at ha'
+      · rename_i hgb
+        simp at ha'; subst ha'
+        have := (hglast f (by simp)).2
+        simp only at ha'e
+        omega
+      · cases ha'
+  have hK : f :: rest ≠ [] := by simp
+  refine ⟨⟨sortMarked (f :: rest) (C15.gaps2 ((f :: rest) ++ (if g.2 < b then [(b, b)] else []))), ?_, ?_⟩,
+    ⟨sortMarked (C15.gaps2 ((f :: rest) ++ (if g.2 < b then [(b, b)] else []))) (f :: rest), ?_, ?_⟩⟩
+  · unfold computeKeepDelete
+    simp only [Option.getD_some, isEmpty_false _ hK, List.isEmpty_nil, Bool.not_false, Bool.not_true, Bool.and_false,
+      Bool.false_and, Option.isNone_some, Bool.false_eq_true, if_false]
+    rw [hcall]
+  · unfold sortMarked
+    rw [markKeep_eq, markDelete_eq]
+    exact first_of_sorted true _ _ f _ (List.mergeSort_perm _ _)
+      (List.pairwise_mergeSort (fun a b c => le_trans a b c) le_total _) (by simp) hfirst hG
+  · unfold computeKeepDelete
+    simp only [Option.getD_none, isEmpty_false _ hK, List.isEmpty_nil, Bool.not_false, Bool.not_true, Bool.and_false,
+      Bool.and_true, Bool.false_eq_true, if_false, if_true]
+    rw [hcall]
+  · unfold sortMarked
+    rw [markKeep_eq, markDelete_eq]
+    exact first_of_sorted false _ _ f _ ((List.mergeSort_perm _ _).trans List.perm_append_comm)
+      (List.pairwise_mergeSort (fun a b c => le_trans a b c) le_total _) (by simp) hfirst hG
+
+/-- **a time outside the recording: `ArgumentError`** — for every sorted disjoint keep or delete list one of whose
+intervals starts before 0 or ends after the duration, with or without replacement -/
+theorem out_of_range_rejected (den : Nat) (f : WavFile) (dur : Int) (gen : Option (Int → List UInt8))
     (L : List (Int × Int)) (hpos : ∀ p ∈ L, p.1 < p.2) (hpw : L.Pairwise (fun x y => x.2 ≤ y.1))
-    (hout : ∃ p ∈ L, dur < p.2) :
-    readFramesAtTimes den f dur L [] gen = .error (.praat .ArgumentError) ∧
-    readFramesAtTimes den f dur [] L gen = .error (.praat .ArgumentError) := by
+    (hout : ∃ p ∈ L, p.1 < 0 ∨ dur < p.2) :
+    readFramesAtTimes den f dur (some L) [] gen = .error (.praat .ArgumentError) ∧
+    readFramesAtTimes den f dur none L gen = .error (.praat .ArgumentError) := by
   obtain ⟨p, hp, hpd⟩ := hout
   have hne : L ≠ [] := List.ne_nil_of_mem hp
   obtain ⟨g, hg⟩ : ∃ g, L.getLast? = some g := ⟨_, List.getLast?_eq_some_getLast hne⟩
   have hpw' : ∀ p ∈ L, p.1 ≤ p.2 := fun p hp => Int.le_of_lt (hpos p hp)
-  have hgd : dur < g.2 := by have := ((C15.plast L g hpw' hpw hg).2 p hp).2; omega
-  obtain ⟨⟨ms, e1, l1⟩, ⟨ms', e2, l2⟩⟩ := marked_last 0 dur L hne hpos hpw g hg hgd
-  constructor
-  · unfold readFramesAtTimes
-    rw [e1]; simp only [checkLast, l1, mk]
-    rw [if_pos hgd]
-  · unfold readFramesAtTimes
-    rw [e2]; simp only [checkLast, l2, mk]
-    rw [if_pos hgd]
+  by_cases hgd : dur < g.2
+  · obtain ⟨⟨ms, e1, l1⟩, ⟨ms', e2, l2⟩⟩ := marked_last 0 dur L hne hpos hpw g hg hgd
+    constructor
+    · unfold readFramesAtTimes
+      rw [e1]; simp only
+      rw [checkBounds_err dur ms (Or.inr ⟨_, l1, hgd⟩)]
+    · unfold readFramesAtTimes
+      rw [e2]; simp only
+      rw [checkBounds_err dur ms' (Or.inr ⟨_, l2, hgd⟩)]
+  · have hp0 : p.1 < 0 := by
+      rcases hpd with h | h
+      · exact h
+      · have := ((C15.plast L g hpw' hpw hg).2 p hp).2; omega
+    obtain ⟨x, rest, rfl⟩ : ∃ x rest, L = x :: rest := by
+      cases L with
+      | nil => exact absurd rfl hne
+      | cons x rest => exact ⟨x, rest, rfl⟩
+    have hx0 : x.1 < 0 := by have := (C15.pfirst hpw' hpw p hp).1; omega
+    obtain ⟨⟨ms, e1, l1⟩, ⟨ms', e2, l2⟩⟩ := marked_first 0 dur (x :: rest) hpos hpw x rfl hx0
+    constructor
+    · unfold readFramesAtTimes
+      rw [e1]; simp only
+      rw [checkBounds_err dur ms (Or.inl ⟨_, l1, hx0⟩)]
+    · unfold readFramesAtTimes
+      rw [e2]; simp only
+      rw [checkBounds_err dur ms' (Or.inl ⟨_, l2, hx0⟩)]
 
-/-- the model mirrors the code: a delete interval that starts before time 0 is accepted; with a replacement
-generator the result (16 samples) is longer than the recording (8 samples).  A keep interval whose negative start
-rounds to sample 0 is accepted as well.  (Known finding C17-1.) -/
-theorem negative_time_counterexample :
-    readFramesAtTimes 8 ⟨1, 8, [1, 2, 3, 4, 5, 6, 7, 8]⟩ 8 [] [(-8, 4)] none = .ok [5, 6, 7, 8] ∧
-    (readFramesAtTimes 8 ⟨1, 8, [1, 2, 3, 4, 5, 6, 7, 8]⟩ 8 [] [(-8, 4)] (some (generateSilence 8 8 1))).map List.length = .ok 16 ∧
-    readFramesAtTimes 64 ⟨1, 8, [1, 2, 3, 4, 5, 6, 7, 8]⟩ 64 [(-1, 64)] [] none = .ok [1, 2, 3, 4, 5, 6, 7, 8] := by
-  have hinv : invertIntervalList [((-8 : Int), (4 : Int))] (some 0) (some 8) = .ok [(4, 8)] := by
-    have := invert_call 0 8 (-8, 4) [] (by simp) (by simp) (-8, 4) rfl
-    rw [this]; decide
-  have hinv2 : invertIntervalList [((-1 : Int), (64 : Int))] (some 0) (some 64) = .ok [] := by
-    have := invert_call 0 64 (-1, 64) [] (by simp) (by simp) (-1, 64) rfl
-    rw [this]; decide
-  have hsort : sortMarked [(4, 8)] [(-8, 4)] = [⟨-8, 4, false⟩, ⟨4, 8, true⟩] := by
-    unfold sortMarked
-    apply mergeSort_eq_of_sorted_perm
-    · exact List.Perm.swap _ _ _
-    · decide
-  have hm : computeKeepDelete 0 8 [] [(-8, 4)] = .ok [⟨-8, 4, false⟩, ⟨4, 8, true⟩] := by
-    unfold computeKeepDelete
-    simp only [List.isEmpty_nil, List.isEmpty_cons, Bool.not_false, Bool.not_true, Bool.and_false,
-      Bool.and_true, Bool.false_eq_true, if_false, if_true]
-    rw [hinv]; simp only; rw [hsort]
-  have hm2 : computeKeepDelete 0 64 [(-1, 64)] [] = .ok [⟨-1, 64, true⟩] := by
-    unfold computeKeepDelete
-    simp only [List.isEmpty_nil, List.isEmpty_cons, Bool.not_false, Bool.not_true, Bool.and_false, Bool.false_and,
-      Bool.false_eq_true, if_false]
-    rw [hinv2]; simp only
-    unfold sortMarked; simp [markKeep]
+/-- regression (C17-2, fixed by 25e3c22): an explicitly empty keep list keeps nothing — or replaces everything —
+while "no list" still returns the whole recording -/
+theorem keep_empty_regression :
+    readFramesAtTimes 8 ⟨1, 8, [1, 2, 3, 4]⟩ 4 (some []) [] none = .ok [] ∧
+    readFramesAtTimes 8 ⟨1, 8, [1, 2, 3, 4]⟩ 4 (some []) [] (some (generateSilence 8 8 1)) = .ok [0, 0, 0, 0] ∧
+    readFramesAtTimes 8 ⟨1, 8, [1, 2, 3, 4]⟩ 4 none [] none = .ok [1, 2, 3, 4] := by
   refine ⟨?_, ?_, ?_⟩
-  · unfold readFramesAtTimes; rw [hm]; decide
-  · unfold readFramesAtTimes; rw [hm]; decide
-  · unfold readFramesAtTimes; rw [hm2]; decide
+  · unfold readFramesAtTimes; rw [marked_keep 0 4 [] (show (0 : Int) ≤ 4 by decide) (Or.inr (by decide))]; decide
+  · unfold readFramesAtTimes; rw [marked_keep 0 4 [] (show (0 : Int) ≤ 4 by decide) (Or.inr (by decide))]; decide
+  · unfold readFramesAtTimes; rw [marked_none]; decide
+
+/-- regression (C17-1, fixed by 2609506): the inputs that used to be accepted — a delete interval starting before 0
+(with replacement the result was longer than the recording) and a keep interval whose negative start rounds to
+sample 0 — are `ArgumentError`s -/
+theorem negative_time_regression :
+    readFramesAtTimes 8 ⟨1, 8, [1, 2, 3, 4, 5, 6, 7, 8]⟩ 8 none [(-8, 4)] none = .error (.praat .ArgumentError) ∧
+    readFramesAtTimes 8 ⟨1, 8, [1, 2, 3, 4, 5, 6, 7, 8]⟩ 8 none [(-8, 4)] (some (generateSilence 8 8 1)) =
+      .error (.praat .ArgumentError) ∧
+    readFramesAtTimes 64 ⟨1, 8, [1, 2, 3, 4, 5, 6, 7, 8]⟩ 64 (some [(-1, 64)]) [] none = .error (.praat .ArgumentError) :=
+  ⟨(out_of_range_rejected 8 _ 8 none [(-8, 4)] (by simp) (by simp) ⟨(-8, 4), by simp, Or.inl (by decide)⟩).2,
+   (out_of_range_rejected 8 _ 8 _ [(-8, 4)] (by simp) (by simp) ⟨(-8, 4), by simp, Or.inl (by decide)⟩).2,
+   (out_of_range_rejected 64 _ 64 none [(-1, 64)] (by simp) (by simp) ⟨(-1, 64), by simp, Or.inl (by decide)⟩).1⟩
 
 /-! ## 10. generated audio has `round(rate × duration)` samples -/
 
@@ -1108,12 +1279,12 @@ theorem SplitRel.names {toQ : α → QTime} {f : WavFile} {g : Tg α} {stem : St
   | _, [], _ :: _, h => by cases h
   | _, _ :: _, [], h => by cases h
 
-/-- **one output per entry**: `splitAudioOnTier` succeeds only on a non-empty list of (non-silence) entries of an
-interval tier and then produces exactly one output per entry, in order, named by the documented rule -/
+/-- **one output per entry**: `splitAudioOnTier` produces exactly one output per (non-silence) entry of the interval
+tier, in order, named by the documented rule — none when there is no entry -/
 theorem split_one_per_entry (toQ : α → QTime) (f : WavFile) (g : Tg α) (tierName stem : String) (flag : TgFlag)
     (style : NameStyle) (noPartial : Bool) (silence : Option String) (outs : List (SplitOut α))
     (h : splitAudioOnTier toQ f g tierName stem flag style noPartial silence = .ok outs) :
-    ∃ es, splitEntries g tierName silence = .ok es ∧ es ≠ [] ∧
+    ∃ es, splitEntries g tierName silence = .ok es ∧
       SplitRel toQ f g stem flag style noPartial es.length 0 es outs ∧
       outs.length = es.length ∧ outs.map (·.name) = namesFrom stem style es.length 0 es := by
   unfold splitAudioOnTier at h
@@ -1121,17 +1292,15 @@ theorem split_one_per_entry (toQ : α → QTime) (f : WavFile) (g : Tg α) (tier
   | error e => rw [hes] at h; cases h
   | ok es =>
     rw [hes] at h
-    cases es with
-    | nil => cases h
-    | cons iv rest =>
-      have hr := splitLoop_rel toQ f g stem flag style noPartial (iv :: rest).length (iv :: rest) 0 outs h
-      exact ⟨iv :: rest, rfl, by simp, hr, hr.length, hr.names⟩
+    have hr := splitLoop_rel toQ f g stem flag style noPartial es.length es 0 outs h
+    exact ⟨es, rfl, hr, hr.length, hr.names⟩
 
-/-- no entry (an empty tier, or nothing but silence): the built-in `ValueError` of `math.log10(0)` (known finding C17-4) -/
+/-- no entry (an empty tier, or nothing but silence): nothing is written, `[]` is returned (C17-4, fixed by 5e608f3;
+before: the built-in `ValueError` of `math.log10(0)`) -/
 theorem split_no_entries (toQ : α → QTime) (f : WavFile) (g : Tg α) (tierName stem : String) (flag : TgFlag)
     (style : NameStyle) (noPartial : Bool) (silence : Option String) (h : splitEntries g tierName silence = .ok []) :
-    splitAudioOnTier toQ f g tierName stem flag style noPartial silence = .error (.praat .ValueError) := by
-  unfold splitAudioOnTier; rw [h]
+    splitAudioOnTier toQ f g tierName stem flag style noPartial silence = .ok [] := by
+  unfold splitAudioOnTier; rw [h]; rfl
 
 end split
 
@@ -1376,7 +1545,7 @@ def exFile : WavFile := ⟨1, 8, [1, 2, 3, 4, 5, 6, 7, 8, 9, 10, 11, 12, 13, 14,
 def exFile2 : WavFile := ⟨2, 8, [1, 0, 2, 0, 3, 0, 4, 0, 5, 0, 6, 0, 7, 0, 8, 0]⟩
 def exKeep : List (Int × Int) := [(2, 4), (4, 6), (10, 16)]
 
-/-- the hypotheses of `keep_spec_partial`, `delete_spec`, `replace_keep`, `replace_delete` are satisfiable together -/
+/-- the hypotheses of `keep_spec`, `delete_spec`, `replace_keep`, `replace_delete` are satisfiable together -/
 theorem ex_hypotheses :
     DurOk 8 exFile 16 ∧ SortedDisjoint exKeep 0 16 ∧ exKeep ≠ [] ∧
     (∀ p ∈ exKeep, OnGrid 8 exFile.rate p.1 ∧ OnGrid 8 exFile.rate p.2) ∧ OnGrid 8 exFile.rate 16 ∧
@@ -1385,15 +1554,17 @@ theorem ex_hypotheses :
   intro p hp
   exact ⟨⟨p.1, Int.mul_comm _ _⟩, ⟨p.2, Int.mul_comm _ _⟩⟩
 
-/-- … and the theorems then give the concrete results (keep, delete, replacement) -/
+/-- … and the theorems then give the concrete results (keep, delete, empty keep list) -/
 theorem ex_results :
-    readFramesAtTimes 8 exFile 16 exKeep [] none = .ok [3, 4, 5, 6, 11, 12, 13, 14, 15, 16] ∧
-    readFramesAtTimes 8 exFile 16 [] exKeep none = .ok [1, 2, 7, 8, 9, 10] ∧
+    readFramesAtTimes 8 exFile 16 (some exKeep) [] none = .ok [3, 4, 5, 6, 11, 12, 13, 14, 15, 16] ∧
+    readFramesAtTimes 8 exFile 16 none exKeep none = .ok [1, 2, 7, 8, 9, 10] ∧
+    readFramesAtTimes 8 exFile 16 (some []) [] none = .ok [] ∧
     complement 0 exKeep 16 = [(0, 2), (6, 10)] := by
-  obtain ⟨h1, h2, h3, _⟩ := ex_hypotheses
-  refine ⟨?_, ?_, by decide⟩
-  · rw [keep_spec_partial 8 (by decide) exFile 16 h1 exKeep h2 h3]; decide
+  obtain ⟨h1, h2, _, _⟩ := ex_hypotheses
+  refine ⟨?_, ?_, ?_, by decide⟩
+  · rw [keep_spec 8 (by decide) exFile 16 h1 exKeep h2]; decide
   · rw [delete_spec 8 (by decide) exFile 16 h1 exKeep h2]; decide
+  · rw [keep_spec 8 (by decide) exFile 16 h1 [] (by decide)]; rfl
 
 /-- off the sample grid (times in 1/80 s): each boundary is rounded once, so the windows of a delete list and of
 its complement tile the recording — nothing is dropped or read twice -/
@@ -1408,34 +1579,39 @@ example : DurOk 8 exFile2 8 ∧ SortedDisjoint [(0, 3), (5, 8)] 0 8 := by decide
 example : DurOk 18014398509481984 ⟨1, 10, [1, 2, 3]⟩ 5404319552844595 := by decide
 
 -- evaluated illustrations (interpreter tests, not proofs)
-#guard (computeKeepDelete 0 16 exKeep []).toOption ==
+#guard (computeKeepDelete 0 16 (some exKeep) []).toOption ==
   some [⟨0, 2, false⟩, ⟨2, 4, true⟩, ⟨4, 6, true⟩, ⟨6, 10, false⟩, ⟨10, 16, true⟩]
-#guard (computeKeepDelete 0 16 [] exKeep).toOption ==
+#guard (computeKeepDelete 0 16 none exKeep).toOption ==
   some [⟨0, 2, true⟩, ⟨2, 4, false⟩, ⟨4, 6, false⟩, ⟨6, 10, true⟩, ⟨10, 16, false⟩]
-#guard (computeKeepDelete 0 16 [] [(0, 16)]).toOption == some [⟨0, 16, false⟩]
-#guard (computeKeepDelete 0 16 [(3, 3)] []).toOption == none
-#guard readFramesAtTimes 8 exFile 16 exKeep [] (some (generateSilence 8 8 1)) =
+#guard (computeKeepDelete 0 16 none [(0, 16)]).toOption == some [⟨0, 16, false⟩]
+#guard (computeKeepDelete 0 16 (some []) []).toOption == some [⟨0, 16, false⟩]
+#guard (computeKeepDelete 0 16 (some []) exKeep).toOption == (computeKeepDelete 0 16 none exKeep).toOption
+#guard (computeKeepDelete 0 16 (some [(3, 3)]) []).toOption == none
+#guard readFramesAtTimes 8 exFile 16 (some exKeep) [] (some (generateSilence 8 8 1)) =
   .ok [0, 0, 3, 4, 5, 6, 0, 0, 0, 0, 11, 12, 13, 14, 15, 16]
-#guard readFramesAtTimes 8 exFile 16 [] exKeep (some (generateSilence 8 8 1)) =
+#guard readFramesAtTimes 8 exFile 16 none exKeep (some (generateSilence 8 8 1)) =
   .ok [1, 2, 0, 0, 0, 0, 7, 8, 9, 10, 0, 0, 0, 0, 0, 0]
-#guard readFramesAtTimes 8 exFile 16 [] [(0, 16)] none = .ok []
-#guard readFramesAtTimes 8 exFile 16 [] [] none = .ok exFile.data
-#guard readFramesAtTimes 8 exFile 16 [(2, 4)] [(6, 8)] none = .error (.praat .ArgumentError)
-#guard readFramesAtTimes 8 exFile 16 [(2, 17)] [] none = .error (.praat .ArgumentError)
-#guard readFramesAtTimes 8 exFile 16 [] [(20, 24)] none = .error (.praat .ArgumentError)
-#guard readFramesAtTimes 8 exFile 16 [(-8, 4)] [] none = .error (.audio .WaveError)
-#guard readFramesAtTimes 8 exFile2 8 [] [(3, 5)] (some (generateSilence 8 8 2)) =
+#guard readFramesAtTimes 8 exFile 16 none [(0, 16)] none = .ok []
+#guard readFramesAtTimes 8 exFile 16 none [] none = .ok exFile.data
+#guard readFramesAtTimes 8 exFile 16 (some []) [] (some (generateSilence 8 8 1)) = .ok (List.replicate 16 0)
+#guard readFramesAtTimes 8 exFile 16 (some [(2, 4)]) [(6, 8)] none = .error (.praat .ArgumentError)
+#guard readFramesAtTimes 8 exFile 16 (some [(2, 17)]) [] none = .error (.praat .ArgumentError)
+#guard readFramesAtTimes 8 exFile 16 none [(20, 24)] none = .error (.praat .ArgumentError)
+#guard readFramesAtTimes 8 exFile 16 (some [(-8, 4)]) [] none = .error (.praat .ArgumentError)
+#guard readFramesAtTimes 8 exFile 16 none [(-8, 4)] none = .error (.praat .ArgumentError)
+#guard readFramesAtTimes 8 exFile2 8 none [(3, 5)] (some (generateSilence 8 8 2)) =
   .ok [1, 0, 2, 0, 3, 0, 0, 0, 0, 0, 6, 0, 7, 0, 8, 0]
-#guard readFramesAtTimes 80 exFile 160 [] [(23, 47), (47, 101)] none = .ok [1, 2, 11, 12, 13, 14, 15, 16]
+#guard readFramesAtTimes 80 exFile 160 none [(23, 47), (47, 101)] none = .ok [1, 2, 11, 12, 13, 14, 15, 16]
 -- overlapping keep list (malformed): the stretch is read twice, a negative replacement duration yields nothing
-#guard readFramesAtTimes 8 exFile 16 [(2, 6), (4, 8)] [] (some (generateSilence 8 8 1)) =
+#guard readFramesAtTimes 8 exFile 16 (some [(2, 6), (4, 8)]) [] (some (generateSilence 8 8 1)) =
   .ok [0, 0, 3, 4, 5, 6, 5, 6, 7, 8, 0, 0, 0, 0, 0, 0, 0, 0]
 #guard generateSilence 10 8 2 3 = [0, 0, 0, 0] && generateSilence 10 8 2 (-3) = [] && sineCount 2 8 1 = 4
 #guard (generateSineWave 2 8 1 (fun i => [0, 127, 0, -127][i]!) 1) = .ok [0, 127, 0, 129]
 #guard extractSubwav exFile ⟨3, 10⟩ ⟨8, 10⟩ = .ok ⟨1, 8, [3, 4, 5, 6]⟩
 #guard outputName "rec" .default 12 3 "a" = "rec_03" && outputName "rec" .append 12 3 "a" = "rec_03_a" &&
   outputName "rec" .appendNoI 12 3 "a" = "rec_a" && outputName "rec" .label 12 3 "a" = "a" &&
-  outputName "rec" .default 9 3 "a" = "rec_3" && outputName "rec" .default 100 7 "a" = "rec_007"
+  outputName "rec" .default 9 3 "a" = "rec_3" && outputName "rec" .default 100 7 "a" = "rec_007" &&
+  outputName "my%20file" .default 3 1 "a" = "my%20file_1"
 
 def exTg : Tg Int := ⟨[.I ⟨"words", [⟨4, 8, "a"⟩, ⟨8, 12, "b"⟩], 0, 16⟩, .I ⟨"phones", [⟨2, 6, "p"⟩], 0, 16⟩,
   .P ⟨"pts", [⟨8, "x"⟩], 0, 16⟩], some 0, some 16⟩
@@ -1446,6 +1622,8 @@ def exTg : Tg Int := ⟨[.I ⟨"words", [⟨4, 8, "a"⟩, ⟨8, 12, "b"⟩], 0, 
 #guard (splitAudioOnTier (fun k => ⟨k, 8⟩) exFile exTg "words" "rec" .off .default false (some "a")).toOption.map
     (fun outs => outs.map (·.name)) == some ["rec_0"]
 #guard (splitAudioOnTier (fun k => ⟨k, 8⟩) exFile exTg "pts" "rec" .off .default false none).toOption.isNone
+#guard ((splitAudioOnTier (fun k => ⟨k, 8⟩) exFile exTg "pts" "rec" .off .default false (some "x")).toOption.map (·.length)) == some 0
+#guard ((splitAudioOnTier (fun k => ⟨k, 8⟩) exFile exTg "phones" "rec" .all .default false (some "p")).toOption.map (·.length)) == some 0
 #guard ((splitTg exTg 4 8 true (.only "phones")).toOption.map fun o => o.map fun t => t.tiers.length) == some (some 1)
 
 end C17
